@@ -66,7 +66,8 @@ def run_variant(v):
             except SyntaxError as e:
                 return (v['id'], 'BROKEN-VARIANT', f'does not parse: {e}')
         ctx = main.run_property(v['prop'], 'quick', 0, repo=tmp)
-        viol = [o for o in ctx.obs if o.status == report.VIOLATED]
+        known = {(k['rule'], k['construct']) for k in report.load_known().get('open', []) if k.get('property') == v['prop']}
+        viol = [o for o in ctx.obs if o.status == report.VIOLATED and (o.rule, o.construct) not in known]
         und = [o for o in ctx.obs if o.status == report.UNDECIDED]
         floor_fail = [f for f in ctx.floors if f[1] < f[2]]
         rules = sorted({o.rule for o in viol})
